@@ -22,6 +22,26 @@ Definition integer_attribute (attr : list N) (minimum : Z) : res Z :=
   | Some v => Ok (if v <? minimum then minimum else v)
   end.
 
+(* utils.MinInt *)
+Definition min_int (a b : Z) : Z := if a <? b then a else b.
+
+(* the CALL SITES of integerAttribute: each one fixes the lower bound handed to the reader and the
+   upper clamp applied to its result; the table code (build.go grid, layout/table.go,
+   layout/preferred.go tableAndColumnsPreferredWidths) indexes the column grid with these numbers.
+     NewTableCellBox        boxes_tree.go:425   Colspan = MinInt(integerAttribute(colspan, 1), 1000)
+                            boxes_tree.go:426   Rowspan = MinInt(integerAttribute(rowspan, 0), 65534)
+     TableColumnBox.span    boxes_tree.go:397   MinInt(integerAttribute(span, 1), 1000)
+     TableColumnGroupBox.span (no children)  boxes_tree.go:373   the same
+   A missing attribute reads as "" (utils.HTMLNode.Get). *)
+Definition cell_colspan (attr : list N) : res Z :=
+  let* v := integer_attribute attr 1 in Ok (min_int v 1000).
+Definition cell_rowspan (attr : list N) : res Z :=
+  let* v := integer_attribute attr 0 in Ok (min_int v 65534).
+Definition column_span (attr : list N) : res Z :=
+  let* v := integer_attribute attr 1 in Ok (min_int v 1000).
+Definition column_group_span (attr : list N) : res Z :=
+  let* v := integer_attribute attr 1 in Ok (min_int v 1000).
+
 (* style.go:803-826: the font-size keyword index in 1..7, or None (warning, attribute ignored).
    Precondition of the Go code: the attribute is not "" (style.go:803). *)
 Definition font_size_attr (attr : list N) : res (option Z) :=
